@@ -996,7 +996,7 @@ Print Assumptions optimize_straight_run.
 
 (** * Non-vacuity: concrete programs *)
 
-Open Scope string_scope.
+#[local] Open Scope string_scope.
 
 (** "w" in page zero, "t" a table at $0200 *)
 Definition sim_cfg : config :=
